@@ -748,6 +748,13 @@ def check(ctx):
         if rule == 'R13.5-initial-values' and key == 'import_sbml_species':
             ctx.ob('R12.6-reader-values', key, ok, where, what, detail)
     c13.check_parameter_values(ctx, 'R12.6-reader-values')
+    # "the same immediate ... stoichiometry": the species references the writer creates carry each species' multiplicity (C14 R14.3),
+    # which is what the reader expands - re-emitted here
+    sub = SubCtx(ctx)
+    c14.check_stoichiometry(sub, c14.get_func(ctx, 'add_reaction'))
+    for rule, key, ok, where, what, detail in sub.got:
+        if rule == 'R14.3-stoichiometry':
+            ctx.ob('R12.3-forwarding', 'add_reaction/%s/%s' % (rule, key), ok, where, what, detail)
     c14.check_parameter_ids(ctx, 'R12.3-forwarding')
     c13.check_unannotated_general(ctx, 'R12.6-reader-values')
     check_fresh_containers(ctx)
